@@ -100,6 +100,8 @@ pub struct Chaos {
     pub down: BTreeSet<SocketAddr>,
     /// (destination, uri) of every consistency request seen, for C06 / C16
     pub seen: Vec<(SocketAddr, String)>,
+    /// destination of every ReplicationService request (the repair poller's traffic), for C16
+    pub seen_repair: Vec<SocketAddr>,
     pub trace_hash: u64,
     /// per-destination forced verdict (C06): 1 drop request, 2 drop reply
     pub forced: BTreeMap<SocketAddr, u8>,
@@ -120,6 +122,7 @@ pub fn new_chaos(seed: u64, mix: [u32; 5], max_hold_ms: u64) -> SharedChaos {
         stats: NetStats::default(),
         down: BTreeSet::new(),
         seen: Vec::new(),
+        seen_repair: Vec::new(),
         trace_hash: 0,
         forced: BTreeMap::new(),
         epoch: BTreeMap::new(),
@@ -139,6 +142,8 @@ pub fn install_policy(addr: SocketAddr, chaos: &SharedChaos) {
                     let consistency = m.uri.contains("ConsistencyService");
                     if consistency {
                         c.seen.push((m.to, m.uri.clone()));
+                    } else if m.uri.contains("ReplicationService") {
+                        c.seen_repair.push(m.to);
                     }
                     if c.down.contains(&m.to) {
                         c.stats.to_down_node += 1;
@@ -1509,21 +1514,109 @@ async fn c16_e2e_case(seed: u64, scen: u64, joins_before_store: bool) -> CaseOut
     out
 }
 
+/// The repair poller's member list: node 1 runs the real poller (interval 2 s) with two steady peers; a
+/// further node joins and leaves again (optionally flapping: leave, join, leave; or moving to a new address
+/// before it leaves) with 50..400 ms between the membership snapshots, i.e. usually several events between
+/// two poller ticks. Once membership is quiescent the poller must poll exactly the live peers.
+async fn c16_poller_case(seed: u64, scen: u64) -> CaseOut {
+    let mut out = CaseOut::default();
+    let mut rng = rng_for(seed, 0xC16_9011, scen);
+    install_wall(vec![0; 16]);
+    let chaos = new_chaos(rng.gen(), [100, 0, 0, 0, 0], 1);
+    let interval = Duration::from_secs(2);
+    let mut nodes: Vec<CNode> = Vec::new();
+    for id in [2u8, 3, 4] {
+        let node = start_node(id, scen_addr(46, scen, id), "dc", Arc::new(MemStore::default()), Ctl::new(id), Duration::from_secs(100_000), true, None).await;
+        install_policy(node.addr, &chaos);
+        nodes.push(node);
+    }
+    let node1 = start_node(1, scen_addr(46, scen, 1), "dc", Arc::new(MemStore::default()), Ctl::new(1), interval, true, None).await;
+    install_policy(node1.addr, &chaos);
+    let mut membership: nv::NodeMembership = BTreeMap::from([(1u8, node1.member())]);
+    for nd in &nodes[..2] {
+        membership.insert(nd.id, nd.member());
+    }
+    node1.snap_tx.send(membership.clone()).unwrap();
+    tokio::time::sleep(interval * 2 + Duration::from_millis(rng.gen_range(0..2_000))).await;
+    // ---- the fourth node comes and goes
+    let flapper = &nodes[2];
+    let moved_addr = scen_addr(46, scen, 104);
+    let moved = start_node(4, moved_addr, "dc", Arc::new(MemStore::default()), Ctl::new(4), Duration::from_secs(100_000), true, None).await;
+    install_policy(moved_addr, &chaos);
+    let script: &[&str] = match rng.gen_range(0..4) {
+        0 => &["join", "leave"],
+        1 => &["join", "leave", "join", "leave"],
+        2 => &["join", "move", "leave"],
+        _ => &["join", "leave", "join", "move", "leave"],
+    };
+    for step in script {
+        match *step {
+            "join" => {
+                membership.insert(4, flapper.member());
+            },
+            "move" => {
+                membership.insert(4, moved.member());
+            },
+            _ => {
+                membership.remove(&4);
+            },
+        }
+        node1.snap_tx.send(membership.clone()).unwrap();
+        tokio::time::sleep(Duration::from_millis(rng.gen_range(50..400))).await;
+    }
+    // ---- quiescent: let the poller settle, then watch two full cycles
+    tokio::time::sleep(interval * 3).await;
+    chaos.lock().seen_repair.clear();
+    tokio::time::sleep(interval * 2 + Duration::from_millis(200)).await;
+    let polled: BTreeSet<SocketAddr> = chaos.lock().seen_repair.iter().copied().collect();
+    out.count("quiescent_poller_windows_observed", 1);
+    out.count("membership_events_for_the_passing_node", script.len() as u64);
+    out.nontrivial = Some(hash_of(&("poller", scen, script)));
+    let desc = |extra: Value| json!({"script_for_node_4": script, "polled_in_two_quiescent_cycles": polled.iter().map(|a| a.to_string()).collect::<Vec<_>>(), "observed": extra});
+    for gone in [flapper.addr, moved_addr] {
+        if polled.contains(&gone) {
+            out.violate("C16:departed-node-still-polled-by-repair", desc(json!({"departed_node": 4, "address": gone.to_string()})));
+        }
+    }
+    for nd in &nodes[..2] {
+        if !polled.contains(&nd.addr) {
+            out.violate("C16:live-peer-not-polled-by-repair", desc(json!({"peer": nd.id})));
+        }
+    }
+    if !out.violations.is_empty() {
+        out.replay = Some(json!({"mode": "poller", "seed": seed, "scenario": scen}));
+    }
+    for nd in &nodes {
+        rv::unregister(nd.addr);
+    }
+    rv::unregister(moved_addr);
+    rv::unregister(node1.addr);
+    datacake_crdt::verif::set_wall(None);
+    out
+}
+
 pub fn c16_e2e(args: &Args) {
     let mut report = Report::new(
         args,
         "E2-cluster",
-        "end to end: 2..4 peers join node 1 one at a time, either after node 1's store extension subscribed (prompt subscriber) or BEFORE it was created (late subscriber); the repair poller is parked (interval 100 000 s) so only the task distributor can deliver. A Consistency::None put on node 1 must be in every live peer's storage after two batch windows; then one peer leaves the membership and, a batch window later, another None put must not be addressed to it (requests per destination counted by the transport policy) while the remaining peers still receive it; finally a remaining peer changes its address (same id, one delta with left=[id@old] joined=[id@new]) and a third put must arrive at the new address and not be sent to the old one. Non-trivial: every scenario; distinct = (scenario, mode, peers, departed).",
+        "end to end: 2..4 peers join node 1 one at a time, either after node 1's store extension subscribed (prompt subscriber) or BEFORE it was created (late subscriber); the repair poller is parked (interval 100 000 s) so only the task distributor can deliver. A Consistency::None put on node 1 must be in every live peer's storage after two batch windows; then one peer leaves the membership and, a batch window later, another None put must not be addressed to it (requests per destination counted by the transport policy) while the remaining peers still receive it; finally a remaining peer changes its address (same id, one delta with left=[id@old] joined=[id@new]) and a third put must arrive at the new address and not be sent to the old one. Second scenario (the repair poller's member list): node 1 runs the real poller (2 s) with two steady peers; a further node joins and leaves (or flaps, or moves to a new address before leaving) with 50..400 ms between the snapshots - usually several events between two poller ticks; once membership is quiescent, two full poller cycles are watched at the transport: exactly the live peers must be polled, never the departed node's addresses. Non-trivial: every scenario; distinct = (scenario, mode, peers, departed).",
     );
     if let Some(path) = &args.replay {
         let r = read_replay(path);
-        report.absorb(block_on_paused(c16_e2e_case(r["seed"].as_u64().unwrap(), r["scenario"].as_u64().unwrap(), r["joins_before_store"].as_bool().unwrap())));
+        if r["mode"] == "poller" {
+            report.absorb(block_on_paused(c16_poller_case(r["seed"].as_u64().unwrap(), r["scenario"].as_u64().unwrap())));
+        } else {
+            report.absorb(block_on_paused(c16_e2e_case(r["seed"].as_u64().unwrap(), r["scenario"].as_u64().unwrap(), r["joins_before_store"].as_bool().unwrap())));
+        }
         report.finish(args);
         return;
     }
     let seed = args.seed;
     let n = args.pick(4_000, 200_000);
     run_cases(&mut report, n, args.threads, Duration::from_secs(args.pick(100, 1500)), |i| block_on_paused(c16_e2e_case(seed, i, i % 2 == 1)));
+    let n_poller = args.pick(2_000, 100_000);
+    run_cases(&mut report, n_poller, args.threads, Duration::from_secs(args.pick(100, 1500)), |i| block_on_paused(c16_poller_case(seed, i)));
+    report.floor("quiescent_poller_windows_observed", 500);
     report.floor("none_level_writes_followed", 200);
     report.floor("departures_followed", 200);
     report.floor("address_changes_followed", 100);
